@@ -61,7 +61,7 @@ TGetClock(id) == /\ HasNext /\ ops[id].st = "read" /\ ops[id].e.op = "get"
                  /\ UNCHANGED <<tr, l, store, now, maxTTL, cp, cleanerOn>>
 
 TLinSet(id) == /\ ops[id].e.op = "set" /\ ops[id].t # -1
-               /\ store' = (ops[id].e.k :> [val |-> ops[id].e.v, exp |-> ops[id].t + Cap(ops[id].e.ttl, maxTTL)]) @@ store
+               /\ store' = (ops[id].e.k :> [val |-> ops[id].e.v, exp |-> ops[id].t + Cap(ops[id].e.ttl, maxTTL) * TPS]) @@ store
                /\ ops' = [ops EXCEPT ![id].st = "lin"]
                /\ UNCHANGED now
 TLinGet(id) == /\ ops[id].e.op = "get"
